@@ -53,7 +53,45 @@ UNSAFE_OPS = {
 IMUT = ('Cell<', 'RefCell<', 'Mutex<', 'Atomic', 'UnsafeCell<', 'OnceCell<', 'OnceLock<', 'RwLock<', 'LazyCell<', 'LazyLock<')
 
 
+SHARED_MUTABLE = re.compile(r'sync::atomic::Atomic|sync::(poison::)?(mutex::)?Mutex|sync::(poison::)?(rwlock::)?RwLock|sync::(once_lock::)?OnceLock|'
+                            r'sync::(lazy_lock::)?LazyLock|sync::(once::)?Once\b|once_cell::|lazy_static|parking_lot')
+
+
+def shared_state(ctx):
+    """concurrent use = sequential use: the library keeps no process-wide mutable state.  Every reference to a `static`
+    appears in MIR as a constant of reference type; none of them may be an atomic / lock / once-cell (thread-locals are
+    per thread and fine), and there is no `static mut`"""
+    found = {}
+    n = 0
+
+    def walk(x, where):
+        nonlocal n
+        if isinstance(x, dict):
+            c = x.get('const')
+            if isinstance(c, dict):
+                n += 1
+                ty = c.get('ty', '')
+                if SHARED_MUTABLE.search(ty) and 'thread::local::LocalKey' not in ty:
+                    found.setdefault(ty[:80], set()).add(where)
+                if 'static mut' in str(c.get('text', '')):
+                    found.setdefault('static mut ' + str(c.get('text'))[:60], set()).add(where)
+            for v in x.values():
+                walk(v, where)
+        elif isinstance(x, list):
+            for v in x:
+                walk(v, where)
+    for crate in ('serde_avro_fast', 'serde_avro_derive'):
+        f = ctx.facts(crate)
+        for b in f.body_list:
+            walk(b.j['blocks'], short_fn(fn_label(b)))
+    ctx.ob('STATIC', 'no-process-wide-mutable-state', not found, None,
+           'atomics / locks / once-cells reachable as statics from library code: %s (%d constant operands scanned; thread-locals are per-thread)' % (
+               {k: sorted(v)[:2] for k, v in found.items()} or 'none', n))
+    ctx.floor('STATIC', 'constant operands scanned', n, 1000)
+
+
 def run(ctx):
+    shared_state(ctx)
     unsafe_inventory(ctx)
     sites(ctx)
     frozen(ctx)
@@ -213,6 +251,14 @@ def sites(ctx):
                 good = so.consts() == {0} and 'len' in eo.flags and 'nodes' in eo.fields and not eo.has_arith() and \
                     bool(eo.calls) and call_matches(eo.calls[0], ['Vec::<T, A>::len']) and not any('capacity' in cname(c) for c in eo.calls)
                 rng.append(good)
+    # `0..=(len - 1)` is the same walk (len > 0 is asserted before): RangeInclusive::new(0, nodes.len() - 1)
+    for bb, t in tf.calls():
+        if strip_generics(cname(t)).endswith('RangeInclusive::new') and len(t['args']) == 2:
+            so, eo = origin(tf, t['args'][0]), origin(tf, t['args'][1])
+            ar = {x for x in eo.flags if x.startswith('arith:')}
+            good = so.consts() == {0} and 'len' in eo.flags and 'nodes' in eo.fields and ar <= {'arith:Sub', 'arith:SubWithOverflow'} and bool(ar) and \
+                {c for c in eo.consts() if isinstance(c, int)} <= {1} and not any('capacity' in cname(c) for c in eo.calls)
+            rng.append(good)
     ctx.ob('SITES', 'ranges-end-at-len', len(rng) >= 2 and all(rng), short_loc(tf.span),
            'index ranges built in freeze: %d, each 0..nodes.len(): %s' % (len(rng), rng))
     # phase 2 / lookup builder never reads per_type_lookup
